@@ -382,6 +382,13 @@ def run(ctx):
              "concatenation, nothing) and a device on `child.p[idx]` for every int index and every slice with steps +-1, +-2: "
              "exported bits == the bits the design denotes",
         bound="7 referents x ~115 indices", key_of=lambda c: c[0])
+    ctx.run_bounded(
+        "end-relative-indices", _c01.relative_index_designs(),
+        lambda c: (lambda r: None if r is None else ("relative-index/" + r[0], r[1], r[2]))(_c01.check_design(c)),
+        rule="negative and open-ended indices into concatenations, signals and slices whose parts were resized after a "
+             "width query (slice taken before or after), and into same-named signals of different widths in several "
+             "modules of one exported design: exported bits == the bits the same index selects from the Python list",
+        bound="5 targets x 4 queries x 4 resizes x 6 indices x 2 orders + 14 same-name designs", key_of=lambda c: c[0])
     cases = itertools.chain(small_nested(), nested_cases(rnd, 20000 if thorough else 3000))
     ctx.run_bounded(
         "nested-resolution", cases,
